@@ -13,8 +13,7 @@ namespace etl {
 /// number representation and converts them to an integer value.
 [[nodiscard]] constexpr auto atol(char const* str) noexcept -> long
 {
-    auto const result = strings::to_integer<long>(str);
-    return result.value;
+    return static_cast<long>(strings::to_integer_c<long>(str, 10).value);
 }
 
 } // namespace etl
